@@ -114,6 +114,13 @@ def correspondence(ctx):
         for ac in (True, False):
             cases.append({"kind": "norm", "D": 1, "a": fn, "fn": fn, "ac": ac, "n": ctx.rng.randint(2, 9),
                           "x": [ctx.rng.randint(-40, 40) / 8 for _ in range(4)]})
+    for fn in ("normalize_grid", "denormalize_grid", "normalize_flow", "denormalize_flow"):      # size=None, both layouts
+        for layout in ("last", "first"):
+            if fn.endswith("_flow") and layout == "last":
+                continue
+            ny, nx = ctx.rng.choice([(3, 5), (4, 2), (2, 6)])
+            cases.append({"kind": "norm_auto", "D": 2, "a": f"{fn}:{layout}", "fn": fn, "layout": layout, "ac": ctx.rng.random() < 0.5,
+                          "x": [[[ctx.rng.randint(-24, 24) / 8 for _ in range(2)] for _ in range(nx)] for _ in range(ny)]})
     payload = [{k: v for k, v in c.items() if k != "ngrids_model"} for c in cases]
     res = vlib.run_impl("c10_impl", {"fn": "model_cases", "cases": payload})
     failures, dist = [], {}
@@ -127,6 +134,19 @@ def correspondence(ctx):
             failures.append({"case": slim, "impl": r, "why": "implementation raised where the model is defined"})
             continue
         D = c["D"]
+        if c["kind"] == "norm_auto":
+            acb = "true" if c["ac"] else "false"
+            ny, nx = len(c["x"]), len(c["x"][0])
+            m, o = [], []
+            for yy in range(ny):
+                for xx in range(nx):
+                    for ch, n_ in ((0, nx), (1, ny)):
+                        m.append(f"gen_{c['fn']} (K:=QcF) {acb} (q {n_} 1) {qc(float(c['x'][yy][xx][ch]))}")
+                        o.append(qc(float(r["val"][yy][xx][ch])))
+            lines.append(f"Definition c{i} : bool := vcloser tol {coq_list(m)} {coq_list(o)}.")
+            names.append((i, f"c{i}", "plain"))
+            evals += 1
+            continue
         if c["kind"] == "norm":
             acb = "true" if c["ac"] else "false"
             m = coq_list([f"gen_{c['fn']} (K:=QcF) {acb} (q {c['n']} 1) {qc(float(x))}" for x in c["x"]])
